@@ -2,7 +2,7 @@
    Statements only.  Handles are addresses of boxed entries; the map stores addresses, so growth
    of a shard (rehash) does not move an entry (Rust/std fact, exercised by the engine, not proved). *)
 From Coq Require Import List NArith Bool Arith.
-From AM Require Import Rust.Ast Gen.CacheMap Gen.LocalMap Ref.Sharded Proofs.Sharded Tie.Maps Tie.Graph.
+From AM Require Import Rust.Ast Gen.CacheMap Gen.LocalMap Ref.Sharded Proofs.Sharded Tie.Maps Tie.Graph Gen.Anycache Tie.Records.
 Import ListNotations.
 
 (* the code: keyed look-ups under the read lock, entry(key).or_insert under the write lock of the
@@ -63,3 +63,10 @@ Example C01_nonvacuous :
              {| rmap := []; rthreads := [PStart 7%N 100%N; PStart 7%N 200%N; PStart 7%N 300%N] |} in
   rthreads c = [PDone 7%N 200%N (Some 100%N); PDone 7%N 200%N None; PDone 7%N 200%N (Some 300%N)].
 Proof. vm_compute. reflexivity. Qed.
+
+(* every typed load goes through the cached look-up first and builds a value only on a miss; the
+   look-up consults the map whatever the type's reload flag and whether or not a reloader exists *)
+Theorem C01_code_lookup_before_load :
+  lookup_recorded Gen.Anycache.Cache_get_cached_entry_inner = true /\
+  load_entry_wf Gen.Anycache.Cache_load_entry = true.
+Proof. exact (conj (proj1 (proj2 (proj2 recording_call_sites))) (proj1 (proj2 (proj2 (proj2 recording_call_sites))))). Qed.
